@@ -3,7 +3,23 @@ HOOK_COMMITS = ["fbda34b"]
 NOT_YET = {}
 _G = "TLA+ grammar/contract + impl-shaped parser model checked by TLC; TLC-printed files concretised and run through the real loaders; observations judged by the contract operator in a TLA+ trace spec"
 _L = "TLA+ models of the reader stack (ReaderStack.tla: tee/bufio/parser programs; AutoChain.tla: chain of three loaders with explicit byte identities) model-checked by TLC over all delivery schedules; real loaders driven through an instrumented source, observations judged by LoadContract.tla in a TLA+ trace spec"
+_N = "TLA+ oracle: the published formulas as exactly decidable power relations over multi-limb arithmetic written in TLA+ (Num.tla, outward rounding), self-tested by TLC; trace validation of exact decimal renderings of the real code's results"
 CHECKS = {
+    "C01": {
+        "text": "Colour.tla states the three published EOTFs as relations without roots ((y+-eps)^5 vs ((x+0.055)/1.055)^12, (y+-eps)^256 vs x^563, (y+-eps)^5 vs x^9, linear segments exactly) over Num.tla's exact / outward-rounded arithmetic; TLC first checks Num's identities and curve lemmas (end points, junction continuity, published mid-grey values), then judges every recorded decode: all 256 + 65,536 codes x 4 spaces for Zero, One, StrictMono (on IEEE bit patterns), tab8[v] = tab16[257v] and bit-equality of every public decode entry point; the 3e-7 relation on every 8-bit code and on the stated 16-bit subset (quick) or every code (thorough); LineariseColor within 3e-7 + half a 16-bit code.",
+        "ref": "DESIGN.md 5/C01", "technique": _N,
+        "note": "The oracle shares no code with math.Pow or the package's own curve functions; a relation is rejected only if certainly false (rounding margin 10^-21 relative). Each run corrupts sampled observations by +-4e-7 (must be rejected) and +5e-8 (must be accepted).",
+    },
+    "C02": {
+        "text": "An encoded value e for input x is judged through the DECODE relation at half-codes: EOTF((e-1/2)/n) <= min(1, x+h) and EOTF((e+1/2)/n) >= max(0, x-h) with h half a table step, clip law outside (0,1), NaN returns, outputs non-decreasing in x; plain quantisers by |out - n x| <= 1/2. Quick: every 8-bit bucket/code boundary +-2 ulp, strided 16-bit boundaries, specials, seeded floats, and agreement of Color.ToNRGBA/ToRGBA/ToRGBA64 of all four spaces with the per-component encoders. Thorough: every one of the 2^32 float32 bit patterns is passed to each of the 9 functions and compressed into maximal runs of constant output; because both conjuncts are monotone in x, TLC decides the property for every float from the run records.",
+        "ref": "DESIGN.md 5/C02", "technique": _N + "; run-length certificate for the exhaustive float32 sweep",
+        "note": "Declared float32 slack (decided in DESIGN 3.2 before any code existed): half code read as 1/2 + n*2^-22, window as (x+h)(1+2^-22). The run-length encoding in the driver is trusted (cross-checked by totals).",
+    },
+    "C14": {
+        "text": "AlphaIdentity (alpha out = alpha in, integer equality) and TransparentIsZero for linearise and encode in all 4 spaces over all 65,536 alphas (thorough) or a boundary+seeded subset (quick); PremultValid (channel <= alpha stays so after linearising) on the column c = a, boundaries and seeded interior, backed by the lemma EOTF(x) <= x that TLC checks on the 16-bit grid; constructor alpha = A/max decided as correct rounding of the 24-bit mantissa in integer arithmetic; encode-side alpha through the quantiser law for float alphas incl. out of range, infinities, NaN; opaque constructors agree bit-for-bit.",
+        "ref": "DESIGN.md 5/C14", "technique": _N,
+        "note": "The 2.1e9 (channel, alpha) pairs are not enumerated; monotonicity of every stage in the channel plus the recorded column c = a is the argument (DESIGN 5/C14).",
+    },
     "C07": {
         "text": "TLC proves, for every source of <= 9 bytes, every truncation, both terminal conditions, every delivery schedule (incl. data+EOF) and every parser program of <= 3 requests over 7 request kinds, that the rewind buffer equals what the source delivered (ReplayComplete) and, for the chain of three loaders with explicit byte identities, that every loader sees the input from byte 1 and the returned stream is the whole input (ReplayWhole); mutant wirings (tee above bufio, next loader handed the original reader) are rejected by the same invariants. The real loaders are then run on ~39k (input, cut, fault, schedule) combinations (repo images, TLC-generated container files, junk/polyglots; every prefix <= 48 bytes, strided to 8 KiB, structural boundaries +-1; EOF and sticky I/O error) and each drained stream is judged by ReplayOK.",
         "ref": "DESIGN.md 5/C07", "technique": _L,
